@@ -1,6 +1,7 @@
 """C20 - optional cargo features do not change parsing."""
 from vlib import *
 import defs as D, cmdline_sig, hashlib
+from checks import c02
 
 SETS = ["default", "none", "autocomplete", "all", "dull", "bright"]
 
@@ -10,7 +11,9 @@ def corpus(tier):
     fams = [("c", "MC_CmdLine", "MC_CmdLine_replay.cfg",
              D.conv_family(SEED + 200, 12 if q else 60, max_named=3, maxlen=3, budget=3000 if q else 20000, extras=("dd", "unk", "help")) +
              D.cmd_family(SEED + 201, 8 if q else 40, maxlen=3 if q else 4, budget=3000 if q else 20000) +
-             D.val_family(SEED + 202, 8 if q else 40, maxlen=3, budget=3000 if q else 20000)),
+             D.val_family(SEED + 202, 8 if q else 40, maxlen=3, budget=3000 if q else 20000) +
+             D.amb_family(SEED + 206, 3 if q else 9, maxlen=2 if q else 3) +
+             [dict(d, alpha=dict(d["alpha"], extras=["help"])) for d in D.spell_family(SEED + 205, 14 if q else 56, maxlen=2, budget=4000 if q else 30000)]),
             ("g", "MC_GroupLine", "MC_GroupLine_replay.cfg",
              D.alt_family(SEED + 203, 8 if q else 40, maxlen=3 if q else 4, budget=3000 if q else 20000) +
              D.adj_family(SEED + 204, 6 if q else 30, maxlen=4 if q else 5, budget=3000 if q else 20000))]
@@ -39,6 +42,8 @@ def run(v):
             # every build must conform to the specification ...
             for m in read_ndjson(mm):
                 if m.get("outside"):
+                    continue
+                if "rule" in c02.sig(m):      # recorded tokeniser findings F11/F12 belong to C02
                     continue
                 s = cmdline_sig.signature(m)
                 s["build"] = fs
